@@ -35,3 +35,32 @@ package basestore
 //@   ensures statusMax(b.replicationStatus) == max3(maxTotal, logLen(b.oplog), old(statusMax(b.replicationStatus)))
 //@   ensures statusProgress(b.replicationStatus) == max(min(statusMax(b.replicationStatus), old(statusProgress(b.replicationStatus)) + 1), logLen(b.oplog))
 //@   modifies statusMax(b.replicationStatus), statusProgress(b.replicationStatus)
+
+// ---- C12 / C04 / C03 / C10: Sync on heads as the network delivers them ----
+// No precondition on the heads: any slice of nil / typed-nil / partially filled *entry.Entry values.
+// Never panics; every head handed to the replicator is defined, complete, permitted by the access
+// controller, and re-encodes to its claimed hash; a hash mismatch returns an error and starts nothing.
+//@ func (*BaseStore).Sync
+//@   props C12 C04 C03 C10
+//@   flag nilcalls
+//@   requires b.identity != nil && b.access != nil && b.options != nil && b.replicator != nil
+//@   requires b.tracer != nil && b.options.IO != nil
+//@   loop 1 invariant len(verified) <= $i
+//@   loop 1 invariant forall j Int :: 0 <= j && j < len(verified) ==> verified[j] != nil && ref(verified[j]) != 0
+//@   loop 1 invariant forall j Int :: 0 <= j && j < len(verified) ==> canAppendOK(b.access, verified[j]) && cidStr(contentHash(verified[j])) == hs(verified[j])
+//@   loop 1 invariant forall j Int :: 0 <= j && j < len(verified) ==> (exists k Int :: 0 <= k && k < $i && heads[k] == verified[j])
+//@   ensures result != nil ==> spawned_Load == 0
+//@   ensures spawned_Load <= 1
+//@   modifies "F:entry.Entry.Next", "F:entry.Entry.Refs"
+
+// ---- C12 / C09 / C10: the topic message listener ----
+// Arbitrary message bytes: decoded or dropped, never a panic, and the loop only ends when the channel is
+// closed (an undecodable or rejected message must not stop later ones). Sync is called on this store.
+//@ func (*BaseStore).pubSubChanListener$2
+//@   props C12 C09 C10
+//@   flag nilcalls
+//@   requires b != nil && b.messageMarshaler != nil && b.logger != nil
+//@   requires b.identity != nil && b.access != nil && b.options != nil && b.replicator != nil && b.tracer != nil && b.options.IO != nil
+//@   loop 1 noexit
+//@   assume @ loop 1 body: evt != nil
+//@   loop 1.1 invariant len(entries) == len(msg.Heads)
